@@ -13,5 +13,7 @@ CONSTANTS
   Dev_StaleScratch = FALSE
   Dev_MemoWriter = FALSE
   Dev_RollbackOnlyHeads = FALSE
+  Dev_CidByDigest = FALSE
+  Dev_KeepUnattached = FALSE
 INVARIANT Emit
 CHECK_DEADLOCK FALSE
